@@ -77,6 +77,15 @@ impl TableRefresh {
             num_questionable_nodes,
         );
 
+        #[cfg(btdht_verif)]
+        crate::verif::emit("RefreshRound", || {
+            vec![
+                ("node", socket.local_addr().into()),
+                ("cursor", self.curr_refresh_bucket.into()),
+                ("contacts", nodes_to_contact.len().into()),
+            ]
+        });
+
         // Ping the closest questionable nodes
         for node in nodes_to_contact {
             // Generate a transaction id for the request
